@@ -415,8 +415,12 @@ func init() {
 				depth = 4
 			}
 			idx := 0
-			gen.Sequences(len(alpha), depth, func(seq []int) bool {
-				if len(seq) == 0 {
+			// every history of up to 3 calls first, completely (no time check); in the thorough tier the histories
+			// of exactly 4 calls follow, as far as the time budget goes - enumerated with the FIRST call varying
+			// fastest, so that what a cut-off run leaves out is a range of LAST calls, not of first ones
+			pass := 1
+			visitSeq := func(seq []int) bool {
+				if len(seq) == 0 || (pass == 2 && len(seq) < depth) {
 					return true
 				}
 				idx++
@@ -426,6 +430,9 @@ func init() {
 				names := make([]string, len(seq))
 				for i, s := range seq {
 					names[i] = alpha[s].Name
+					if pass == 2 {
+						names[len(seq)-1-i] = alpha[s].Name
+					}
 				}
 				var sig, detail string
 				var outs []string
@@ -450,8 +457,19 @@ func init() {
 					}
 					return true
 				})
-				return idx%64 != 0 || !c.TimeUp()
-			})
+				return pass == 1 || !c.TimeUpEvery(4)
+			}
+			gen.Sequences(len(alpha), 3, visitSeq)
+			// (the histories of 4 calls run last: a time cap there costs nothing else)
+			defer func() {
+				if depth > 3 {
+					pass = 2
+					gen.Sequences(len(alpha), depth, visitSeq)
+					if !c.TimeUp() {
+						c.Note("every history of 4 calls completed")
+					}
+				}
+			}()
 			// E0: the value-mapping table, each entry alone and after / before other calls on pooled VMs
 			for _, e := range c20ValueTable() {
 				for _, names := range [][]string{{e.Name}, {"a+1", e.Name}, {e.Name, e.Name}, {"throw-with-arg", e.Name, "typeof-a-unset"}, {"arg-named-JSON", e.Name, "JSON.stringify"}} {
